@@ -556,8 +556,50 @@ pub fn micro_scenarios() -> Vec<Scenario> {
     ]
 }
 
+/// multi_call over 3 and 4 callees whose outcomes complete at controlled virtual instants: every request is answered (or
+/// dropped) by a helper task after its own latency, so the waiter tasks of the JoinSet finish in a chosen order.
+/// 3 callees: every permutation of the completion order; 4 callees: reverse order and a few others; then mixes of
+/// reply / SenderError / Timeout outcomes. Result position i must carry the outcome and the value of request i.
+pub fn multi_scenarios() -> Vec<Scenario> {
+    let mk = |lat: &[Pol], t: Option<u64>| Scenario {
+        ncallees: lat.len(),
+        sup: false,
+        pol: lat.iter().enumerate().map(|(i, p)| (i as u64 + 1, *p)).collect(),
+        clients: vec![vec![COp::Multi { ids: (1..=lat.len() as u64).collect(), t }]],
+    };
+    let h = Pol::Helper;
+    let mut v = vec![];
+    for perm in [[1u64, 2, 3], [1, 3, 2], [2, 1, 3], [2, 3, 1], [3, 1, 2], [3, 2, 1]] {
+        v.push(mk(&[h(perm[0]), h(perm[1]), h(perm[2])], Some(6)));
+    }
+    v.push(mk(&[h(3), h(2), h(1)], None));
+    for perm in [[4u64, 3, 2, 1], [2, 4, 1, 3], [3, 1, 4, 2], [4, 1, 3, 2], [1, 4, 3, 2], [3, 4, 1, 2]] {
+        v.push(mk(&[h(perm[0]), h(perm[1]), h(perm[2]), h(perm[3])], Some(7)));
+    }
+    // mixed outcomes: reply / SenderError (helper drops, handler drops, handler fails) / Timeout, completing out of request order
+    v.push(mk(&[h(3), Pol::HelperDrop(2), h(1)], Some(5)));
+    v.push(mk(&[h(9), h(2), Pol::HelperDrop(1)], Some(4))); // request 1 times out at 4, after the others
+    v.push(mk(&[Pol::Late(3), Pol::Never, h(2)], Some(5)));
+    v.push(mk(&[h(4), h(9), Pol::Fail, h(1)], Some(6)));
+    v.push(mk(&[Pol::HoldDrop(3), h(2), Pol::Stash, Pol::Prompt], Some(4)));
+    v.push(mk(&[h(9), Pol::HelperDrop(3), h(2), h(8)], Some(5)));
+    // a callee killed / stopped while the group is in flight
+    let mut a = mk(&[h(3), h(2), h(1)], Some(6));
+    a.clients.push(vec![COp::Sleep(2), COp::Kill(1)]);
+    v.push(a);
+    let mut a = mk(&[Pol::Late(3), Pol::Late(2), Pol::Late(1), Pol::Prompt], None);
+    a.clients.push(vec![COp::Sleep(1), COp::Kill(0), COp::Stop(2)]);
+    v.push(a);
+    v
+}
+
 pub fn rand_scenario(rng: &mut Rng) -> Scenario {
-    let ncallees = if rng.chance(1, 3) { 2 } else { 1 };
+    let ncallees = match rng.below(6) {
+        0 | 1 | 2 => 1,
+        3 => 2,
+        4 => 3,
+        _ => 4,
+    };
     let mut pol = vec![];
     let mut next_id = 1u64;
     let mut clients: Vec<Vec<COp>> = vec![];
@@ -591,16 +633,23 @@ pub fn rand_scenario(rng: &mut Rng) -> Scenario {
             c.push(COp::Sleep(times[rng.below(times.len())]));
         }
         for _ in 0..(1 + rng.below(2)) {
-            if next_id > 8 {
+            if next_id > 9 {
                 break;
             }
             match rng.below(6) {
-                0 if ncallees == 2 => {
-                    let ids = vec![next_id, next_id + 1];
-                    pol.push((next_id, rpol(rng)));
-                    pol.push((next_id + 1, rpol(rng)));
-                    next_id += 2;
-                    c.push(COp::Multi { ids, t: rt(rng) });
+                0 | 2 if ncallees >= 2 && next_id + ncallees as u64 <= 13 => {
+                    let ids: Vec<u64> = (next_id..next_id + ncallees as u64).collect();
+                    for id in &ids {
+                        // mostly helper replies with their own latency, so that outcomes complete out of request order
+                        let p = match rng.below(5) {
+                            0 => rpol(rng),
+                            1 => Pol::HelperDrop(1 + rng.below(3) as u64),
+                            _ => Pol::Helper(1 + rng.below(4) as u64),
+                        };
+                        pol.push((*id, p));
+                    }
+                    next_id += ncallees as u64;
+                    c.push(COp::Multi { ids, t: if rng.chance(1, 2) { Some(3) } else { rt(rng) } });
                 }
                 1 => {
                     pol.push((next_id, rpol(rng)));
@@ -676,6 +725,20 @@ pub fn batch(out: &str, tier: &str, seed: u64) -> Value {
         }
         let mut ex = Explorer::new(Mode::Random, seed.wrapping_mul(0x9E3779B97F4A7C15) ^ 0x6d6963726f);
         for _ in 0..nmicro {
+            go(&mut b, &sc, &mut ex);
+        }
+    }
+    let nmulti = if tier == "thorough" { 200 } else { 20 };
+    for sc in multi_scenarios() {
+        let mut ex = Explorer::new(Mode::Dfs { preempt_bound: Some(2) }, seed);
+        for _ in 0..nmulti {
+            go(&mut b, &sc, &mut ex);
+            if !ex.end_run() {
+                break;
+            }
+        }
+        let mut ex = Explorer::new(Mode::Random, seed.wrapping_mul(0x9E3779B97F4A7C15) ^ 0x6d756c7469);
+        for _ in 0..nmulti {
             go(&mut b, &sc, &mut ex);
         }
     }
